@@ -134,6 +134,13 @@ def run_impl(case):
     t = np.array(case["times"], float)     # the caller's own array (a copy of the case's: checks compare it with the case afterwards)
     if case.get("time_dtype"):
         t = t.astype(case["time_dtype"])       # day counts held as integers, float32 from a file
+    if case.get("time_form") == "masked":
+        t = np.ma.masked_array(t)               # an ndarray subclass with nothing masked (netCDF / genfromtxt(usemask=True) hand these out)
+    elif case.get("time_form") == "series":
+        import pandas as pd
+        t = pd.Series(t)                        # a column of a production table divided by tau: default labels 0 .. n-1
+    elif case.get("time_form") == "list":
+        t = [float(x) for x in t]
     out["time_arg"] = t
     # the node count as the caller holds it: a Python int, or a (narrow) NumPy integer scalar taken from an array / a table column
     nx_arg = np.dtype(case["nx_type"]).type(case["nx"]) if case.get("nx_type") else case["nx"]
@@ -227,7 +234,29 @@ def run_impl(case):
     except RuntimeError as e:
         out["error"] = "RuntimeError"
         out["msg"] = str(e)[:200]
+    except (TypeError, AttributeError, IndexError, KeyError, FloatingPointError) as e:
+        out["error"] = type(e).__name__
+        out["msg"] = str(e)[:200]
     return out
+
+
+def time_container_forms(cases, report, forms=("masked", "series", "list")):
+    """The single-phase class accepts its time grid as a masked array with nothing masked, as a pandas Series with default labels and as a
+    plain list, and simulates the same numbers as for the plain array (the ideal class documents and requires an ndarray).  Returns #runs."""
+    n = 0
+    for c in cases:
+        plain = run_impl(c)
+        if "field" not in plain:
+            continue
+        for form in forms:
+            if c["kind"] == "ideal" and form == "list":
+                continue
+            other = run_impl(dict(c, time_form=form))
+            n += 1
+            if "field" not in other or np.asarray(other["field"]).shape != np.asarray(plain["field"]).shape or not np.array_equal(np.asarray(other["field"]), np.asarray(plain["field"]), equal_nan=False):
+                what_form = {"masked": "numpy.ma.MaskedArray, no entry masked", "series": "pandas Series with default labels", "list": "plain Python list"}[form]
+                report(c, what_form, other.get("error") or other.get("msg") or (float(np.nanmax(np.abs(np.asarray(other["field"]) - np.asarray(plain["field"])))) if np.asarray(other["field"]).shape == np.asarray(plain["field"]).shape and not np.isnan(np.asarray(other["field"])).all() else "all NaN / other shape"))
+    return n
 
 
 def run_threaded(cases, workers=4):
